@@ -216,7 +216,9 @@ def run_programs(ctx, nprog, collect_wf=None):
             # correspondence with the Lean transcription
             if step.model:
                 lines.append(step.line(ref if not isinstance(ref, BaseException) else None) if step.oracle != "ref" or not isinstance(ref, BaseException) else step.line(torch.zeros(1)))
-                impl_tok.append(oc.enc(res))
+                # a pass-through function is modelled by its float oracle: torch may decompose it into intercepted ops (cumsum of a
+                # 0-d tensor is a clone) and hand back a quantized tensor denoting the same values — compare what it denotes
+                impl_tok.append(oc.enc(res.dequantize() if (step.rel == "fallback" and oc.is_q(res)) else res))
                 meta.append((name, signature(step, res)))
             elif step.name == "mm" and not isinstance(res, BaseException):
                 a, b = step.operands
